@@ -8,7 +8,7 @@ import vlib
 
 CODE_PROPS = {101: ["C01", "C02"], 102: ["C01", "C04"], 103: ["C01"], 201: ["C02"], 202: ["C02"],
               301: ["C03"], 302: ["C03"], 303: ["C03"], 304: ["C03"], 305: ["C03"], 306: ["C03"],
-              401: ["C04"], 501: ["C11"], 502: ["C11"]}
+              401: ["C04"], 501: ["C11"], 502: ["C11"], 601: ["C05"]}
 
 
 def shrink(binary, hist, pred, budget=40):
@@ -140,3 +140,38 @@ def run(chk, prop, profiles, n_quick, n_thorough, codes, replay=None, extra_hist
         "a step is over when no collector call and no processor event happened for a quiescence interval; doubtful histories are re-run with a long interval",
         "metric table capacity, ties between equal priorities, trace observer and LASP are outside this model (C05/C06/C07, C16, C13)",
     ]
+
+
+def run_stage(chk, profiles, n, codes, name="procstage"):
+    """A processor-level stage for a property whose main check lives elsewhere (e.g. C05's capacity monitor
+    on the real processor).  The Coq stage has been done by the caller.  Returns False if the stage could not run."""
+    import random as _r
+    rng = _r.Random(chk.seed + 7)
+    ok, out = vlib.coq_make(["ProcMonitor.vo"])
+    if not ok:
+        chk.fail("procmonitor_build.txt", "coq/ProcMonitor.v does not build:\n" + out[-3000:], no_input=True)
+        return False
+    hists = procgen.gen_histories(rng, n, profiles)
+    binary, blog = vlib.go_test_binary("newrelic", only=["proc"])
+    if binary is None:
+        chk.fail("harness_build.txt", "processor harness (TestVerifProc) does not build against the current tree:\n" + blog, no_input=True)
+        return False
+    obs, res, log = procgen.run_and_evaluate(binary, hists, name=name)
+    if obs is None or "error" in (res or {}):
+        chk.fail("procstage_run.txt", "processor stage failed:\n" + (log or "")[-3000:] + str((res or {}).get("error", ""))[-2000:], no_input=True)
+        return False
+    for h in hists:
+        chk.count_case(h["ops"], nontrivial=len(h["ops"]) >= 3)
+    mine = [v for v in res["viols"] if v[1] in codes]
+    chk.cov["processor_stage"] = {"histories": len(hists), "monitor_violations": len(mine),
+                                  "correspondence_mismatches": len([c for c in res["corr"] if c])}
+    seen = set()
+    for (hi, code, step) in mine:
+        if hi in seen:
+            continue
+        seen.add(hi)
+        nm = procgen.V_NAMES.get(code, str(code))
+        chk.fail("%s_h%d.json" % (nm, hi), {"what": "%s at step %d on the real processor" % (nm, step),
+                                            "histories": [hists[hi]], "observed": obs[hi]["steps"]},
+                 sig="%s-%s" % (chk.pid.lower(), nm))
+    return True
